@@ -595,6 +595,32 @@ def spaces(tier, variant, seed):
             R.fail("mpf_get_str", "exponent %d inconsistent with digits %r" % (ex.value, s[:30]))
         return (p, base, nd, na, ea, k == nd)
 
+    # last-digit accuracy at the precision's own digit capacity, over the whole exponent range: the working precision of the
+    # conversion (limbs of the operand and of the power of the base actually used) is tightest when the top limb is small
+    def gl_cases(blk):
+        p, kind = blk
+        pl = (p + 127) // 64            # prec in limbs; prec+1 limbs are stored
+        for sh in range(64):
+            if kind == "ones65":
+                ma = ((1 << 65) - 1) << sh
+            elif kind == "ones":
+                ma = ((1 << (64 * pl + 1)) - 1) << sh
+            elif kind == "dense":
+                ma = ((al.PAT(pl + 1, sh)["dense"] | 1) >> 63) << sh | 1
+            else:
+                ma = (((1 << 64) + 1) << sh) | 1
+            if al.nl(ma) > pl + 1:
+                continue
+            for ea in list(range(-66, 67, 1 if quick else 1)):
+                for base in (10, 3, 62) if quick else (10, 3, 7, 36, 62):
+                    cap = int(p / math.log2(base))
+                    for nd in (cap, cap - 1):
+                        yield (p, ma, ea, base, nd)
+
+    glb = [(p, kind) for p in PRECS for kind in ("ones65", "ones", "dense", "b+1")]
+    sp.append(Space("mpf_get_str_last_digit", glb, gl_cases, gs_one,
+                    "mpf_get_str with as many digits as the precision carries (and one fewer), bases 10,3,62(,7,36): mantissas (2^65-1)<<s, all-ones<<s, dense<<s, (B+1)<<s|1 for every s<64 x every limb exponent -66..66: within one unit of the last requested digit"))
+
     gb = [(p, na) for p in PRECS for na in range(1, (p + 127) // 64 + 2) if na <= 3 or not quick]
     sp.append(Space("mpf_get_str", gb, gs_cases, gs_one, "mpf_get_str: bases 2,10,16,62,-16 x requested digits 0,1,2,5,10,17,20 x mantissas x exponents (allocated string block == strlen+1)"))
 
